@@ -62,6 +62,13 @@ def check_metric(case, rec):
                 want = d(a, b)
                 if float(got[i, j]) != want:
                     raise Violation("cdist-value", f"weights={w}: d({a[:30]!r}.. -> {b[:30]!r}..)[{i},{j}] = {got[i, j]!r}, true {want}")
+    if m >= 1 and case.get("same_object"):
+        X = mat(A, cont)
+        gs = np.asarray(call("cdist", metric.calc_cdist_matrix, X, X))
+        for i, a in enumerate(A):
+            for j, b in enumerate(A):
+                if float(gs[i, j]) != d(a, b):
+                    raise Violation("cdist-same-object", f"weights={w}: cdist(X, X)[{i},{j}] = {gs[i, j]!r}, true {d(a, b)}")
     if m >= 1:
         v = np.asarray(call("pdist", metric.calc_pdist_vector, mat(A, cont)))
         if v.shape != (m * (m - 1) // 2,):
@@ -168,6 +175,14 @@ def check_functional(case, rec):
             k = O.condensed_index(m, i, j)
             if float(v[k]) != float(want):
                 raise Violation("fpdist-layout", f"func={fname} kwargs={kw}: entry {k} for (i={i}, j={j}) = {v[k]!r}, metric(X[i], X[j]) = {want}")
+    if case.get("same_object") and A:
+        # cdist(X, X) with the identical object: still the full rectangle metric(X[i], X[j]), diagonal and both triangles
+        X = mat(A, cont)
+        cs = np.asarray(call("cdist-func", pyrepseq.cdist, X, X, **args))
+        for i, a in enumerate(A):
+            for j, b in enumerate(A):
+                if float(cs[i, j]) != float(ref(a, b)):
+                    raise Violation("fcdist-same-object", f"func={fname} kwargs={kw}: cdist(X, X)[{i},{j}] = {cs[i, j]!r}, metric(X[i], X[j]) = {ref(a, b)}")
     c = np.asarray(call("cdist-func", pyrepseq.cdist, mat(A, cont), mat(B, cont), **args))
     if c.shape != (len(A), len(B)):
         raise Violation("fcdist-shape", f"shape {c.shape} != {(len(A), len(B))}")
@@ -210,6 +225,7 @@ def metric_case(draw, tier="quick"):
                                | st.tuples(st.integers(1, 30), st.integers(1, 30), st.integers(1, 30)).map(list))
     if case["container"] == "tuple" and len(A) == 2:
         case["container"] = "list"
+    case["same_object"] = draw(st.booleans())
     return case
 
 
@@ -226,6 +242,7 @@ def functional_case(draw, tier="quick"):
         case["kwargs"] = {"scale": draw(st.integers(1, 5)), "offset": draw(st.integers(0, 9))}
     if fname == "default" and draw(st.booleans()):
         case["kwargs"] = {"weights": draw(st.sampled_from([[1, 1, 2], [1, 2, 1], [2, 1, 3]]))}
+    case["same_object"] = draw(st.booleans())
     return case
 
 
